@@ -1,6 +1,8 @@
 package main
 
 import (
+	"go/token"
+	"go/ast"
 	"crypto/sha256"
 	"encoding/json"
 	"flag"
@@ -655,6 +657,11 @@ func main() {
 		var added []string
 		for n, f := range e.fns {
 			if t := recvOf(n); t != "" && full[t] && e.isNewCode(f) && e.spec.Contracts[n] == nil {
+				// an unexported helper is only reachable from the type's own methods (it is inlined and checked there); a
+				// method that only reads (no store outside its locals, no call, no channel operation) cannot break anything
+				if !ast.IsExported(f.Name()) || readOnlyBody(f) {
+					continue
+				}
 				added = append(added, n)
 			}
 		}
@@ -877,4 +884,48 @@ func (e *Engine) wasCaptured(name, id string) bool {
 		}
 	}
 	return false
+}
+
+// readOnlyBody: the function stores only into its own locals, calls nothing but len/cap, and performs no channel,
+// map-update, go, defer or panic operation.
+func readOnlyBody(fn *ssa.Function) bool {
+	local := func(v ssa.Value) bool {
+		for {
+			switch x := v.(type) {
+			case *ssa.Alloc:
+				return !x.Heap
+			case *ssa.FieldAddr:
+				v = x.X
+			case *ssa.IndexAddr:
+				v = x.X
+			default:
+				return false
+			}
+		}
+	}
+	for _, b := range fn.Blocks {
+		for _, in := range b.Instrs {
+			switch x := in.(type) {
+			case *ssa.Store:
+				if !local(x.Addr) {
+					return false
+				}
+			case *ssa.Call:
+				if bi, ok := x.Call.Value.(*ssa.Builtin); ok {
+					switch bi.Name() {
+					case "len", "cap", "ssa:deferstack":
+						continue
+					}
+				}
+				return false
+			case *ssa.MapUpdate, *ssa.Send, *ssa.Go, *ssa.Defer, *ssa.Panic, *ssa.Select, *ssa.MakeClosure, *ssa.MakeChan:
+				return false
+			case *ssa.UnOp:
+				if x.Op == token.ARROW {
+					return false
+				}
+			}
+		}
+	}
+	return true
 }
